@@ -128,6 +128,54 @@ pub fn check_header(len: usize) -> CheckResult {
     Ok(())
 }
 
+/// libFuzzer input -> stream case (chunk schedule, end-of-stream position, packets).
+pub fn case_from_fuzz(data: &[u8]) -> Option<StreamCase> {
+    if data.len() < 4 {
+        return None;
+    }
+    let nchunks = (data[0] % 5) as usize;
+    let eof_sel = data[1];
+    let mut pos = 2;
+    let mut chunks = vec![];
+    for _ in 0..nchunks {
+        if pos >= data.len() {
+            break;
+        }
+        chunks.push(1 + (data[pos] % 17) as usize);
+        pos += 1;
+    }
+    let mut packets = vec![];
+    while pos + 3 <= data.len() && packets.len() < 5 {
+        let (c, i, sel) = (data[pos], data[pos + 1], data[pos + 2]);
+        pos += 3;
+        let want = match sel % 8 {
+            0 => 0usize,
+            1 => 254,
+            2 => 255,
+            3 => 256,
+            _ => (sel as usize) % 40,
+        };
+        let body: Vec<u8> = (0..want).map(|k| data.get(pos + k % 7).copied().unwrap_or(k as u8)).collect();
+        pos += want.min(7);
+        let mut p = vec![c, i];
+        if want < 255 && sel % 16 != 15 {
+            p.push(want as u8);
+        } else {
+            p.push(0xff);
+            p.push((want & 0xff) as u8);
+            p.push((want >> 8) as u8);
+        }
+        p.extend(body);
+        packets.push(hex(&p));
+    }
+    if packets.is_empty() {
+        return None;
+    }
+    let total: usize = packets.iter().map(|p| p.len() / 2).sum();
+    let eof = if eof_sel % 3 == 0 { Some(eof_sel as usize * (total + 1) / 256) } else { None };
+    Some(StreamCase { packets, chunks, eof })
+}
+
 pub fn replay(check: &str, i: &Value) -> Option<CheckResult> {
     Some(match check {
         "stream" => check_stream(&serde_json::from_value(i.clone()).ok()?),
@@ -286,6 +334,30 @@ pub fn run(tier: Tier) -> i32 {
         });
     });
     stats.merge(s);
+    if tier == Tier::Thorough {
+        let seeds: Vec<Vec<u8>> = vec![vec![2, 0, 3, 5, 0x06, 0x0f, 1, 0x27, 0x80, 0x00, 0, 0x04, 0xff, 2, 0x17, 0x00], vec![0, 3, 0x0e, 0x0b, 2, 9, 9, 0x06, 0x1e, 5, 0x6c]];
+        match fuzz_campaign("stream_frames", 1_000_000, 256, ctx.seed, &seeds) {
+            Err(e) => stats.notes.push(format!("coverage-guided layer skipped (infrastructure): {e}")),
+            Ok((crash, stat)) => {
+                stats.class_n("libfuzzer-runs", 1_000_000);
+                stats.evaluations += 1_000_000;
+                stats.notes.push(format!("libFuzzer stream_frames: {stat}"));
+                if let Some(input) = crash {
+                    // re-check through the deterministic path before reporting
+                    match case_from_fuzz(&input) {
+                        Some(case) => {
+                            let r = check_stream(&case);
+                            if r.is_ok() {
+                                stats.notes.push(format!("libFuzzer saved an input that does not reproduce deterministically: {}", clip(&hex(&input), 200)));
+                            }
+                            ctx.record(r, &mut stats);
+                        }
+                        None => stats.notes.push("libFuzzer saved an input that maps to no case".into()),
+                    }
+                }
+            }
+        }
+    }
     stats.exhaustive_parts = vec!["writer/reader header agreement for every body length 0..=65535".into(), "all 2^(n-1) chunkings of 4 short packet concatenations (8..14 bytes)".into()];
     ctx.finish(
         stats,
